@@ -8,6 +8,7 @@ package verifsync
 import (
 	"fmt"
 	"sync"
+	"unsafe"
 )
 
 // Chooser decides which enabled thread runs next. preemption is true when the thread
@@ -22,6 +23,10 @@ type thread struct {
 	enabled func() bool // nil = always enabled
 	done    bool
 	what    string
+	// spin detection for atomic reads: the location and version this thread read last (reset by any other operation)
+	spinAddr unsafe.Pointer
+	spinVer  uint64
+	spinning bool
 }
 
 // Sched is one controlled execution.
@@ -34,7 +39,10 @@ type Sched struct {
 	Blocked  []string // what the blocked threads wait for when a deadlock is found
 	Panics   []string
 	Points   int
-	Switches []int // thread ids in scheduling order (the schedule)
+	Switches []int                     // thread ids in scheduling order (the schedule)
+	versions map[unsafe.Pointer]uint64 // write counter per atomically accessed location
+	Livelock bool                      // only spinning threads were left, repeatedly
+	wakeups  int
 }
 
 var active *Sched
@@ -44,7 +52,7 @@ func Active() bool { return active != nil }
 
 // Run executes the bodies as controlled threads 0..n-1 until all finish or no thread is enabled.
 func Run(ch Chooser, bodies ...func()) *Sched {
-	s := &Sched{chooser: ch, parked: make(chan *thread)}
+	s := &Sched{chooser: ch, parked: make(chan *thread), versions: map[unsafe.Pointer]uint64{}}
 	active = s
 	defer func() { active = nil }()
 	for i, b := range bodies {
@@ -86,6 +94,23 @@ func Run(ch Chooser, bodies ...func()) *Sched {
 			return s
 		}
 		if len(order) == 0 {
+			// threads that only wait because they re-read an unchanged atomic location are woken once more (a double read is not
+			// necessarily a spin loop); if that keeps happening the execution is a livelock, not a deadlock
+			woke := false
+			for _, t := range s.threads {
+				if !t.done && t.spinning {
+					t.enabled, t.spinning, t.spinAddr = nil, false, nil
+					woke = true
+				}
+			}
+			if woke {
+				s.wakeups++
+				if s.wakeups < 64 {
+					continue
+				}
+				s.Livelock = true
+				return s
+			}
 			s.Deadlock = true
 			for _, t := range s.threads {
 				if !t.done {
@@ -113,7 +138,36 @@ func (s *Sched) park(enabled func() bool, what string) {
 	t.enabled, t.what = enabled, what
 	s.parked <- t
 	<-t.resume
-	t.enabled, t.what = nil, ""
+	t.enabled, t.what, t.spinning = nil, "", false
+}
+
+// AtomicRead is the scheduling point of an atomic load (or a failed compare-and-swap) of the location addr. A thread that
+// reads the same location again while nobody wrote to it is treated as spinning: it is disabled until the location is written.
+func AtomicRead(addr unsafe.Pointer) {
+	s := active
+	if s == nil {
+		return
+	}
+	t := s.cur
+	if t.spinAddr == addr && t.spinVer == s.versions[addr] {
+		ver := t.spinVer
+		t.spinning = true
+		s.park(func() bool { return s.versions[addr] != ver }, "change of an atomic location it keeps re-reading")
+	} else {
+		s.park(nil, "atomic read")
+	}
+	t.spinAddr, t.spinVer = addr, s.versions[addr]
+}
+
+// AtomicWrite is the scheduling point of an atomic store / add / swap / successful compare-and-swap of the location addr.
+func AtomicWrite(addr unsafe.Pointer) {
+	s := active
+	if s == nil {
+		return
+	}
+	s.park(nil, "atomic write")
+	s.cur.spinAddr = nil
+	s.versions[addr]++
 }
 
 // Yield is an explicit scheduling point (used by scripted environment seams).
@@ -145,7 +199,7 @@ func (m *Mutex) Lock() {
 		return
 	}
 	s.park(func() bool { return !m.locked }, "Mutex.Lock")
-	m.locked, m.owner = true, s.cur.id
+	m.locked, m.owner, s.cur.spinAddr = true, s.cur.id, nil
 }
 
 func (m *Mutex) TryLock() bool {
